@@ -1,2 +1,3 @@
 import STProofs.ValidateProofs
+import STProofs.ValidateAny
 /-! # C16 — validation verdicts -/
